@@ -12,6 +12,7 @@
    the model only records that the file is damaged. *)
 From Coq Require Import ZArith List Bool.
 From DRF Require Import Base.Fs Model.WriterProto Proofs.ProtoSafety Proofs.WriterProtoProofs Proofs.WriterFaultProofs.
+From DRF Require Import Proofs.WriterProtoInit.
 Import ListNotations.
 Local Open Scope Z_scope.
 
@@ -75,3 +76,23 @@ Theorem C10_earlier_files_intact : forall F v rc m w d k n,
   w_fs (rs_w (wrun F v rc)) (PData d false k) = Some n.
 Proof. exact earlier_files_intact. Qed.
 Print Assumptions C10_earlier_files_intact.
+
+(* construction (digital_rf_handle_metadata, properties file staged as tmp.drf_properties.h5): when any
+   operation on the properties file other than H5Fcreate's existence probe fails -- create, a write or
+   truncate inside H5Fcreate/H5Fclose, close(2), rename --, construction reports failure, no write call
+   runs, and nothing is published (no path exists but, if its removal failed too, the tmp file) *)
+Theorem C10_construction_fault_reported : forall F c rc,
+  construction_op_failed F (mkVar Staged c) rc ->
+  let r := wrun F (mkVar Staged c) rc in
+  rs_init r = false /\ rs_out r = [] /\ rs_w r = fst (init F (mkVar Staged c) rc W0) /\
+  forall p, p <> PProps true -> w_fs (rs_w r) p = None.
+Proof. exact construction_fault_reported. Qed.
+Print Assumptions C10_construction_fault_reported.
+
+(* conversely a writer is only constructed with a whole drf_properties.h5 in place: whatever it accepts
+   afterwards lands in a channel a reader can open *)
+Theorem C10_constructed_channel_opens : forall F c rc,
+  rs_init (wrun F (mkVar Staged c) rc) = true ->
+  open_channel (w_fs (fst (init F (mkVar Staged c) rc W0))) = true.
+Proof. exact constructed_channel_opens. Qed.
+Print Assumptions C10_constructed_channel_opens.
